@@ -187,6 +187,15 @@ def coherence_issues(code, currencies, c=None):
                 if not s:
                     issues.append((kind, n, 8 if kind == "regimes" else 5, "empty stamp key in a correction definition", None))
 
+    # identity / payment-means / inbox definitions: the keys given are pairwise distinct (clause 10 of a regime, 6 of an addon)
+    for kind, members, idx in (("regimes", ("identities", "payment_means", "inboxes"), 10), ("addons", ("identities", "inboxes"), 6)):
+        for n, d in sorted(code[kind].items()):
+            for mem in members:
+                ks = [x.get("key") for x in L(d, mem) if x.get("key")]
+                for k in ks:
+                    ref("definition-keys", (kind, n, mem, k))
+                for k in sorted(set(x for x in ks if ks.count(x) > 1)):
+                    issues.append((kind, n, idx, "%s key %s defined %d times" % (mem, k, ks.count(k)), None))
     for n, d in sorted(code["regimes"].items()):
         ref("currency", (n, d.get("currency")))
         if d.get("currency") not in currencies:
